@@ -137,8 +137,11 @@ CLAIMED = {
             "plus one line per performed operation + exact correspondence of the emitted text (model vs simulator, after every operation) + an "
             "independent OpenQASM 2.0 parser/interpreter written from the documented mapping that replays the text with the recorded outcomes "
             "and compares the final state (global phase, 1e-6 angle precision); file written next to the source vs --emit-qasm output",
-            "Proof on the model for every history; PARTIAL: the replay clause (interleaved allocation equals allocation up front, "
-            "six-decimal angles) is decided by the independent interpreter on generated programs, not by a theorem.",
+            "Proof on the model for every history, including the replay clause over exact complex amplitudes "
+            "(replay_reaches_the_same_state: declaring the register up front and performing the logged operations with the same draws gives "
+            "exactly the state, flags and log of the interleaved run — allocation commutes with every performed gate, cx, measurement and "
+            "reset). PARTIAL: the text level of the replay (six-decimal angles, parsing) is decided by the independent interpreter on "
+            "generated programs.",
             "Trusted: Lean kernel, independent interpreter tools/qasmlib.py, generators, harness+orchestrator. Defect found and repaired: "
             "cx(q,q) emitted an ill-formed line.", "DESIGN.md §4 C05"),
     "C06": ("Lean 4 theorems about the evaluator's measured-flag machine for every operation history: the first refused operation touches a "
